@@ -153,9 +153,17 @@ def queue_strategy(tier):
     nxt = st.tuples(st.just("next_of_type"), st.integers(0, len(ALL_TYPES) - 1))
     op = st.one_of(add, add, remove, retime, retime, pop, pop, pop, peek, nxt)
     # construction over rejection: a burst of insertions at few distinct times first, then edits/pops
-    return st.tuples(st.lists(add, min_size=3, max_size=10), st.lists(op, min_size=4, max_size=40)).map(
-        lambda t: {"ops": [list(o) for o in t[0] + t[1]]}
-    )
+    burst = st.tuples(st.lists(add, min_size=3, max_size=10), st.lists(op, min_size=4, max_size=40))
+    # small queues whose events are re-timed beyond every time inserted so far (the Simulator pushes its SCHEDULER_START and
+    # cached TASK_PLACEMENT events later in place), with insertions in between: one unit, early insertions, late re-timings
+    early = st.integers(0, 12)
+    late = st.one_of(st.integers(0, 12), st.integers(10, 60))
+    add_e = st.tuples(st.just("add"), st.integers(0, len(ALL_TYPES) - 1), st.one_of(early, late), st.just("US"), st.integers(0, 3), st.integers(0, 2))
+    retime_l = st.tuples(st.just("retime"), st.integers(0, 50), late, st.just("US"))
+    op_s = st.one_of(add_e, add_e, retime_l, retime_l, pop, pop, peek, remove)
+    small = st.tuples(st.lists(st.tuples(st.just("add"), st.integers(0, len(ALL_TYPES) - 1), early, st.just("US"), st.integers(0, 3), st.integers(0, 2)),
+                               min_size=1, max_size=3), st.lists(op_s, min_size=3, max_size=14))
+    return st.one_of(burst, small).map(lambda t: {"ops": [list(o) for o in t[0] + t[1]]})
 
 
 def ref_key_lt(f, e):
@@ -286,5 +294,5 @@ def exec_queue(case):
 
 CHECKS = [
     Check("time_algebra", case_timeout=60, timeout_is_violation=True, execute=exec_time, strategy=time_strategy, budget={"quick": 20000, "thorough": 1500000}),
-    Check("event_queue", case_timeout=60, timeout_is_violation=True, execute=exec_queue, strategy=queue_strategy, budget={"quick": 3000, "thorough": 150000}),
+    Check("event_queue", case_timeout=60, timeout_is_violation=True, execute=exec_queue, strategy=queue_strategy, budget={"quick": 8000, "thorough": 150000}),
 ]
